@@ -1027,7 +1027,7 @@ func (c *ctx) tlsclientEngine() {
 			c.violate("tlsclient", i, "c2-precedence:tlsclient", fmt.Sprintf("script calls back to %q / %q, expected %q (client %s)", sc.Auth[0], sc.Auth[1], want, p.Name), wit)
 			return
 		}
-		c.awaitNotice("tlsclient", i, l.s, from, sc.ID[0], want, wit)
+		c.awaitNotice("tlsclient", i, l, from, sc.ID[0], want, wit)
 		r.Count("tlsclient_scripts", 1)
 		r.Count("tlsclient_scripts:"+p.Name, 1)
 		if cs.Version == tls.VersionTLS12 {
